@@ -39,6 +39,7 @@ macro_rules! neutral_short {
         #[cfg_attr(kani, kani::unwind(33))]
         #[cfg_attr(kani, kani::stub(chrono::Utc::now, crate::verif::rt::stub_now))]
         #[cfg_attr(kani, kani::stub(crate::decoder::get_downlink_format, super::rows::stub_get_df))]
+        #[cfg_attr(kani, kani::stub(crate::decoder::adsb::icao::get_icao, super::rows::stub_get_icao))]
         #[cfg_attr(verif_replay, test)]
         fn $name() {
             let m = frame14();
@@ -87,8 +88,10 @@ macro_rules! neutral_long {
         #[cfg_attr(kani, kani::unwind(33))]
         #[cfg_attr(kani, kani::stub(chrono::Utc::now, crate::verif::rt::stub_now))]
         #[cfg_attr(kani, kani::stub(crate::decoder::get_downlink_format, super::rows::stub_get_df))]
+        #[cfg_attr(kani, kani::stub(crate::decoder::adsb::icao::get_icao, super::rows::stub_get_icao))]
         #[cfg_attr(kani, kani::stub(crate::decoder::utils::get_message_type, super::rows::stub_get_tc))]
         #[cfg_attr(kani, kani::stub(crate::decoder::adsb::position::cpr_location, super::rows::stub_cpr_location))]
+        #[cfg_attr(kani, kani::stub(crate::decoder::adsb::position::cpr, super::rows::stub_cpr))]
         #[cfg_attr(kani, kani::stub(crate::decoder::adsb::ais::ais, super::rows::stub_ais))]
         #[cfg_attr(kani, kani::stub(f64::atan2, super::c09::stub_atan2))]
         #[cfg_attr(kani, kani::stub(f64::sqrt, super::c09::stub_sqrt))]
@@ -98,22 +101,37 @@ macro_rules! neutral_long {
             let m = frame28();
             pin_df(&m, 17);
             pin_tc(&m, $tc);
-            assume(valid_long(&m, $tc));
-            let relaxed = any_bool();
-            draw_libm();
-            let some = any_bool();
-            let (la, lo) = (any_f64(), any_f64());
-            assume(la >= -90.0 && la <= 90.0 && lo >= -180.0 && lo <= 180.0);
-            unsafe { CPRLOC_RET = if some { Some((la, lo)) } else { None } };
-            let mut a = any_row();
-            let Some((df, icao)) = accepted(&m) else { return };
-            a.icao = icao;
-            let mut b = clone_row(&a);
-            apply(&mut a, &m, df, false, relaxed);
-            apply(&mut b, &m, df, true, relaxed);
-            vcover!(relaxed, "-R on");
-            vcover!(!relaxed, "-R off");
-            listed_equal(&a, &b);
+            // position squitters (TC 5-18) write a CPR slot: decide each parity with a constant index
+            if $tc >= 5 && $tc <= 18 {
+                if bit(&m, 54) == 0 {
+                    unsafe { PIN_F = 0 };
+                    go(&m);
+                } else {
+                    unsafe { PIN_F = 1 };
+                    go(&m);
+                }
+            } else {
+                go(&m);
+            }
+            fn go(m: &[u32; 28]) {
+                let m = *m;
+                assume(valid_long(&m, $tc));
+                let relaxed = any_bool();
+                draw_libm();
+                let some = any_bool();
+                let (la, lo) = (any_f64(), any_f64());
+                assume(la >= -90.0 && la <= 90.0 && lo >= -180.0 && lo <= 180.0);
+                unsafe { CPRLOC_RET = if some { Some((la, lo)) } else { None } };
+                let mut a = any_row();
+                let Some((df, icao)) = accepted(&m) else { return };
+                a.icao = icao;
+                let mut b = clone_row(&a);
+                apply(&mut a, &m, df, false, relaxed);
+                apply(&mut b, &m, df, true, relaxed);
+                vcover!(relaxed, "-R on");
+                vcover!(!relaxed, "-R off");
+                listed_equal(&a, &b);
+            }
         }
     };
 }
